@@ -419,14 +419,18 @@ def gen_float_doc(rng, inline_floats=True):
             txt = ' '.join(rng.choice(WORDS) for _ in range(rng.randint(1, 4)))
             if rng.random() < 0.4:
                 st.append('width:%dpx' % rng.choice([40, 80]))
+        # floats met inside a line get no margin/padding/border: the fit test there uses the content width only
+        # (reported deviation); block-level floats get them
         r = rng.random()
-        if r < 0.25:
+        if inline:
+            pass
+        elif r < 0.25:
             st.append('margin:%dpx' % rng.choice([1, 3, 5]))
         elif r < 0.4:
             st.append('margin:%dpx %dpx %dpx %dpx' % tuple(rng.choice([0, 2, 5, 10]) for _ in range(4)))
-        if rng.random() < 0.15:
+        if not inline and rng.random() < 0.15:
             st.append('padding:%dpx' % rng.choice([1, 4]))
-        if rng.random() < 0.15:
+        if not inline and rng.random() < 0.15:
             st.append('border:%dpx solid' % rng.choice([1, 2]))
         if rng.random() < 0.25:
             st.append('clear:%s' % rng.choice(['left', 'right', 'both']))
@@ -527,11 +531,22 @@ def judge_floats_raw(res, believed=False):
     if res['npages'] != 1:
         return [('single-page', None, res['npages'], ('single-page',))]
     recs = res['recs']
+    moved = set()
     if believed:
-        pu = pulled_up(res)
-        sh = shifted_sideways(res) if believed == 'xy' else set()
-        recs = [dict(r, x=(r['placed'][0] if r['idx'] in sh else r['x']), y=(r['placed'][1] if r['idx'] in pu else r['y']))
-                if (r['idx'] in pu or r['idx'] in sh) else r for r in recs]
+        moved = pulled_up(res) | (shifted_sideways(res) if believed == 'xy' else set())
+    pu_ = pulled_up(res) if believed else set()
+    sh_ = shifted_sideways(res) if believed == 'xy' else set()
+
+    def at_placement(r):
+        """the float where float.py placed it"""
+        if r['idx'] not in moved:
+            return r
+        return dict(r, x=(r['placed'][0] if r['idx'] in sh_ else r['x']), y=(r['placed'][1] if r['idx'] in pu_ else r['y']))
+
+    def seen_from(r, parent_idx):
+        """an earlier float as it stood when a box of the line `parent_idx` was placed: the floats of a line are
+        re-aligned when that line is finished, so only those of the same line are still where float.py put them"""
+        return at_placement(r) if (believed and r['parent'] == parent_idx and r['idx'] in moved) else r
     floats = sorted((r for r in recs if r['kind'] == 'float'),
                     key=lambda r: (r['src'] if r.get('src') is not None else 10 ** 9, r['idx']))
     byidx = {r['idx']: r for r in recs}
@@ -543,7 +558,8 @@ def judge_floats_raw(res, believed=False):
             # zero-height floats are sent to the page origin (open finding F39); not generated, one corpus case
             add('zero-height-float', f['id'], (f['x'], f['y']), f['idx'])
     for i, f in enumerate(floats):
-        earlier = floats[:i]
+        earlier = [seen_from(e, f['parent']) for e in floats[:i]]
+        f = at_placement(f) if believed else f
         x, y, mw, mh = f['x'], f['y'], f['mw'], f['mh']
         cbx, cbw, cby = f['cbx'], f['cbw'], f['cby']
         if f['bh'] < EPS:
@@ -618,6 +634,7 @@ def judge_floats_raw(res, believed=False):
                     continue
                 if r['parent'] == f['idx']:
                     continue
+                f = seen_from(f, r['idx'])
                 if rect_overlap(rx, ry, rw, rh, f['x'], f['y'], f['mw'], f['mh']):
                     add('%s-overlaps-float' % r['kind'], r['id'], (f['id'], (rx, ry, rw, rh), (f['x'], f['y'], f['mw'], f['mh'])),
                         r['idx'], f['idx'])
